@@ -36,7 +36,7 @@ def run(ctx):
     recs = [json.loads(x) for x in open(samples)]
     bad = ctx.validate("Trace_Msg", recs)
     ctx.log("ctor sweep: %d calls, %d loopbacks, %d flagged by the sweep; %d records to TLC, %d rejected" % (res["calls"], res["loopbacks"], len(res["bad"]), len(recs), len(bad)))
-    rejected = {(recs[i]["fn"], tuple(recs[i]["args"])) for i, _ in bad}
+    rejected = {(recs[i]["fn"], tuple(recs[i]["args"])) for i, _ in bad}   # with or without context message
     for b in res["bad"]:
         if (b["fn"], tuple(b["args"])) not in rejected:
             raise Machinery("sweep flagged %s but TLC accepts the record: table composition glue is wrong" % b)
@@ -50,8 +50,8 @@ def run(ctx):
         r = recs[idx]
         why = "bytes" if not info["wellformed"] or (info["expected"] and info["expected"] != r["bytes"]) else ("accessor" if not info["accOk"] else ("loopback" if not info["loopOk"] else "panic"))
         fails.append(Failure("call:%s:%s" % (r["fn"], why), "%s%s -> bytes %s expected %s; accessors ok=%s; loopback %s; panic %r" %
-                             (r["fn"], tuple(r["args"]), r["bytes"], info["expected"], [k for k, v in r["acc"].items() if v["ok"]], r["loop"], r["panic"]),
-                             {"family": "msg", "record": {"ev": "call", "fn": r["fn"], "args": r["args"]}}))
+                             (r["fn"] + ("[after %s%s]" % (r["ctxfn"], tuple(r["ctxargs"])) if r.get("ctxfn") else ""), tuple(r["args"]), r["bytes"], info["expected"], [k for k, v in r["acc"].items() if v["ok"]], r["loop"], r["panic"]),
+                             {"family": "msg", "record": {"ev": "call", "fn": r["fn"], "args": r["args"], "ctxfn": r.get("ctxfn", ""), "ctxargs": r.get("ctxargs", [])}}))
     ctx.report(fails, lambda f: confirm(ctx, f))
 
 
